@@ -8,17 +8,6 @@ Local Open Scope list_scope.
 (* G d pushes d, U d must find d on top and pops it: a failure of the machine is a deferred block that
    runs although it is not the most recently registered pending one (not registered, run twice, or out
    of order) *)
-Fixpoint stack_run (evs:list ev) (s:list nat) : option (list nat) :=
-  match evs with
-  | [] => Some s
-  | EvG d :: r => stack_run r (d :: s)
-  | EvU d :: r => match s with
-                  | d' :: s' => if Nat.eqb d d' then stack_run r s' else None
-                  | [] => None
-                  end
-  | _ :: r => stack_run r s
-  end.
-
 Lemma stack_run_app : forall a b s,
   stack_run (a ++ b) s = match stack_run a s with Some s1 => stack_run b s1 | None => None end.
 Proof.
@@ -250,9 +239,6 @@ Proof.
 Qed.
 
 (* ================================================================== corollaries for the emitted code *)
-Definition run_discipline (x:st) (r:res) : Prop :=
-  exists new s', tr (snd r) = new ++ tr x /\ stack_run (rev new) [] = Some s' /\ (fst r = Nrm -> s' = []).
-
 Lemma ref_discipline : forall p x, wf_prog p = true -> run_discipline x (ref_sem p x).
 Proof.
   intros [void body] x H. unfold wf_prog in H. simpl in H.
